@@ -174,13 +174,17 @@ def build_battery(w, inp, rnd, S=1):
         w.dirs.add(POWER)
     for k, b in enumerate(inp["bats"]):
         d = "%s/BAT%d" % (POWER, k)
-        e = "energy" if b["layout"] == "energy" else "charge"
-        p = "power_now" if b["layout"] == "energy" else "current_now"
         w.files[d + "/type"] = b"Battery\n"
         w.files[d + "/present"] = b"1\n"
-        put(w, "%s/%s_now" % (d, e), b["now"], rnd, S)
-        put(w, "%s/%s_full" % (d, e), b["full"], rnd, S)
-        put(w, "%s/%s" % (d, p), b["power"], rnd, S)
+        # "both": the same state in uWh and in uAh (a 12 V battery) -- the ratios now/full and
+        # now/power are the same in either family, never across them
+        fams = [("energy", "power_now", 12 if b["layout"] == "both" else 1)] if b["layout"] != "charge" else []
+        if b["layout"] != "energy":
+            fams.append(("charge", "current_now", 1))
+        for e, p, volt in fams:
+            put(w, "%s/%s_now" % (d, e), b["now"], rnd, S * volt)
+            put(w, "%s/%s_full" % (d, e), b["full"], rnd, S * volt)
+            put(w, "%s/%s" % (d, p), b["power"], rnd, S * volt)
         put(w, d + "/capacity", b["capacity"], rnd)
         put(w, d + "/time_to_empty_now", b["tte"], rnd)
         put_text(w, d + "/status", b["status"], rnd)
